@@ -647,16 +647,34 @@ impl Interp {
                 let v = self.eval(inner)?;
                 let Some(target) = &e.ty else { return unsup("unresolved assertion type") };
                 let V::Iface(bx) = v else { return unsup("assertion on non-interface") };
-                match bx {
-                    Some(b) if &b.0 == target => b.1,
-                    Some(b) => {
-                        if matches!(target, Ty::Named(n) if n == "any") {
+                // assertion to an interface type: the dynamic type must implement it, the value stays boxed
+                let target_iface = match target {
+                    Ty::Named(n) if n == "any" => Some(Vec::new()),
+                    Ty::Named(n) => match self.prog.types.get(n) {
+                        Some(TypeDef::Interface(ms)) => Some(ms.iter().map(|m| m.0.clone()).collect::<Vec<_>>()),
+                        _ => None,
+                    },
+                    _ => None,
+                };
+                match (bx, target_iface) {
+                    (Some(b), Some(methods)) => {
+                        let dyn_name = match &b.0 {
+                            Ty::Named(n) => Some(n.clone()),
+                            Ty::Ptr(inner) => match &**inner {
+                                Ty::Named(n) => Some(n.clone()),
+                                _ => None,
+                            },
+                            _ => None,
+                        };
+                        let ok = methods.iter().all(|m| dyn_name.as_ref().map(|d| self.prog.methods.contains_key(&(d.clone(), m.clone()))).unwrap_or(false));
+                        if ok {
                             V::Iface(Some(b))
                         } else {
                             return Err(Stop::Panic(PanicKind::Assert));
                         }
                     }
-                    None => return Err(Stop::Panic(PanicKind::Assert)),
+                    (Some(b), None) if &b.0 == target => b.1,
+                    _ => return Err(Stop::Panic(PanicKind::Assert)),
                 }
             }
             ExprKind::Composite(_, elems) => {
